@@ -9,7 +9,12 @@ P = {'id': 'C09',
               'min0_set_get_other',
               'min0_get_build',
               'min0_push_back_fast',
-              'min0_wide_refuted'],
+              'min0_wide_refuted',
+              'zip_get_build',
+              'sorted_uint_vec_get',
+              'sorted_uint_vec_get2',
+              'sorted_uint_vec_get_block',
+              'sorted_uint_vec_build_only_if'],
  'trusted': ['modelled (M+S): src/containers/uint_vec_min0.rs (compute_uintbits, compute_mem_size, get, set/set_uint_bits single-word path, new, resize, '
              'push_back all three paths, build_from_usize) with the byte vector represented as (length, little-endian number); src/containers/zip_int_vec.rs '
              'is modelled (definitions) but only oracle-checked',
